@@ -4,6 +4,7 @@ package c11
 import (
 	"context"
 	"fmt"
+	"regexp"
 	"runtime"
 	"strings"
 	"testing"
@@ -12,6 +13,8 @@ import (
 	lua "github.com/yuin/gopher-lua"
 	"pgregory.net/rapid"
 
+	"verif/dcheck"
+	"verif/e1"
 	"verif/lgen"
 	"verif/vf"
 )
@@ -302,6 +305,120 @@ func TestGeneratedPrograms(t *testing.T) {
 			return
 		}
 		chkCancel.Run(rt, &CancelCase{Template: "generated", Mode: "poll", Upto: int(r0.polls), Src: src})
+	})
+}
+
+// ---------------------------------------------------------------------------------------------
+// "Until the context is done, attaching it does not change the script's behaviour."
+
+type LiveCase struct {
+	Src     string `json:"src"`
+	Profile string `json:"profile"`
+	Kind    string `json:"context_kind"`
+}
+
+var addrRe = regexp.MustCompile(`(table|userdata|function|thread|channel): 0x[0-9a-f]+`)
+
+func canon(g *e1.GOutcome) string {
+	var b strings.Builder
+	b.WriteString(strings.Join(e1.GTraceStrings(g.Trace), "\n"))
+	if g.Failed {
+		b.WriteString("\nFAILED " + g.ErrText)
+	} else {
+		b.WriteString("\nRESULTS " + strings.Join(e1.GTraceStrings([]e1.GEvent{{Kind: "results", Vals: g.Results}}), ""))
+	}
+	return addrRe.ReplaceAllString(b.String(), "$1: ADDR")
+}
+
+func firstDiffLine(a, b string) (int, string, string) {
+	x, y := strings.Split(a, "\n"), strings.Split(b, "\n")
+	for i := 0; i < len(x) || i < len(y); i++ {
+		l, r := "<end>", "<end>"
+		if i < len(x) {
+			l = x[i]
+		}
+		if i < len(y) {
+			r = y[i]
+		}
+		if l != r {
+			return i, clip(l, 200), clip(r, 200)
+		}
+	}
+	return -1, "", ""
+}
+
+var chkLive = vf.Register("live_context_transparent", func(k *vf.C, c *LiveCase) error {
+	// the reference interpreter only bounds the program here (steps and events); the oracle is gopher-lua without a
+	// context against gopher-lua with a context that is never done
+	r := e1.RunRef(c.Src, nil)
+	if r.ParseErr != nil || r.Unspecified != "" {
+		k.Discard("reference: unspecified or over budget")
+		return nil
+	}
+	var ctx context.Context
+	var cancel context.CancelFunc
+	switch c.Kind {
+	case "cancel":
+		ctx, cancel = context.WithCancel(context.Background())
+	case "deadline":
+		ctx, cancel = context.WithTimeout(context.Background(), 24*time.Hour)
+	default:
+		// a counting context: live for far longer than the program runs
+		o := e1.BudgetFor(r)
+		with := e1.RunGopher(c.Src, o)
+		if with.Overrun != "" {
+			k.Discard("run exceeds the budget derived from the reference run (subject of C01)")
+			return nil
+		}
+		return compareLive(k, c, r, with)
+	}
+	defer cancel()
+	with := e1.RunGopher(c.Src, &e1.GOpts{Ctx: ctx})
+	return compareLive(k, c, r, with)
+})
+
+func compareLive(k *vf.C, c *LiveCase, r *e1.ROutcome, with *e1.GOutcome) error {
+	if with.Panic != "" {
+		return fmt.Errorf("with a live %s context a Go panic escaped: %s", c.Kind, with.Panic)
+	}
+	// without a context nothing can stop a run-away script: run it aside and give up (inconclusive) after a long wait
+	ch := make(chan *e1.GOutcome, 1)
+	go func() { ch <- e1.RunGopher(c.Src, nil) }()
+	var without *e1.GOutcome
+	select {
+	case without = <-ch:
+	case <-time.After(60 * time.Second):
+		return fmt.Errorf("with a live %s context the script ends, without any context it was still running after 60 s", c.Kind)
+	}
+	if without.Panic != "" {
+		k.Discard("Go panic without a context (subject of C05)")
+		return nil
+	}
+	a, b := canon(without), canon(with)
+	if a != b {
+		i, l, rr := firstDiffLine(a, b)
+		return fmt.Errorf("attaching a live %s context changes the behaviour: first difference at line %d of the canonical trace: without context %q, with context %q", c.Kind, i, l, rr)
+	}
+	k.Class("profile:" + c.Profile)
+	k.Class("context:" + c.Kind)
+	st := r.In.Stat
+	if st.Transfers > 0 {
+		k.Class("uses_coroutines")
+	}
+	if len(with.Trace) >= 2 {
+		k.Nontrivial(vf.Hash(c.Src, c.Kind))
+		k.Sample(c.Profile+"/"+c.Kind, 1, map[string]any{"src": clip(c.Src, 1000), "events": len(with.Trace), "failed": with.Failed})
+	}
+	return nil
+}
+
+func TestLiveContextTransparent(t *testing.T) {
+	profiles := []*lgen.Profile{lgen.Coroutines(), lgen.Coroutines(), lgen.Errors(), lgen.Calls(), lgen.Closures(), lgen.Meta(), lgen.Core()}
+	vf.Rapid(t, func(rt *rapid.T) {
+		p := profiles[rapid.IntRange(0, len(profiles)-1).Draw(rt, "profile")]
+		pc := dcheck.Gen(rt, p)
+		kind := rapid.SampledFrom([]string{"cancel", "deadline", "counting"}).Draw(rt, "ctxkind")
+		chkLive.Run(rt, &LiveCase{Src: pc.Src, Profile: pc.Profile, Kind: kind})
 	})
 }
 
